@@ -108,6 +108,11 @@ def replay_grid(inp):
     CF = ld.load('sedfitter.convolved_fluxes.convolved_fluxes')
     M = ld.load('sedfitter.models')
     nm, nf = len(inp['names']), len(inp['theta'])
+    # log10 is uninterpreted in the symbolic run: if the model's logarithms do not belong to its distances, rebuild the
+    # distances from the logarithms (the property is stated in terms of log10 d)
+    if 'log10_dmin' in inp and inp['dmin'] != inp['dmax']:
+        if abs(np.log10(inp['dmin']) - inp['log10_dmin']) > 1e-12 or abs(np.log10(inp['dmax']) - inp['log10_dmax']) > 1e-12:
+            inp = dict(inp, dmin=float(10. ** inp['log10_dmin']), dmax=float(10. ** inp['log10_dmax']))
     tabs = [CF.ConvolvedFluxes(wavelength=(1.0 + f) * u.micron, model_names=np.array(inp['names']),
                                apertures=np.array(inp['ap'], dtype=float) * u.au,
                                flux=np.array(inp['T'][f], dtype=float) * u.mJy, error=np.array(inp['U'][f], dtype=float) * u.mJy)
@@ -138,7 +143,8 @@ def replay_grid(inp):
         if n != 1:
             bad.append(('n', n))
     else:
-        if not ((n - 1) * inp['step'] >= delta * (1 - 1e-12) and (n - 2) * inp['step'] < delta * (1 + 1e-12)):
+        # (the replay only runs on solver counterexamples, so the boundary case ratio == integer is judged exactly)
+        if not ((n - 1) * inp['step'] >= delta * (1 - 1e-12) and (n - 2) * inp['step'] < delta * (1 - 1e-12)):
             bad.append(('n not minimal', n, delta / inp['step']))
         want = np.log10(inp['dmin']) + delta * np.arange(n) / (n - 1)
         if not np.allclose(m.logd, want, rtol=1e-9, atol=1e-12):
@@ -203,6 +209,7 @@ def h_grid(version, nm, na, nf, nmax, same_ends=False, too_small=False, interp_m
                                     'T': [mval(m, su.value_of(t.flux)) for t in v['tabs']],
                                     'U': [mval(m, su.value_of(t.error)) for t in v['tabs']],
                                     'dmin': mval(m, v['dmin']), 'dmax': mval(m, v['dmax']), 'step': mval(m, v['step']),
+                                    'log10_dmin': mval(m, C.s_log10(v['dmin'])), 'log10_dmax': mval(m, C.s_log10(v['dmax'])),
                                     'theta': mval(m, v['theta'])}
                 if out[0] == 'exc':
                     if too_small and 'too small' in str(out[1]):
@@ -230,7 +237,8 @@ def h_grid(version, nm, na, nf, nmax, same_ends=False, too_small=False, interp_m
                     delta = L1 - L0
                     g = [z3.BoolVal(n >= 2), C.bterm(v['step'] * (n - 1) >= delta), C.bterm(v['step'] * (n - 2) < delta)]
                     # counterexamples are easier to replay in floating point with dmin = 1 kpc and a dyadic step
-                    nice = [C.same(v['dmin'], 1.0), C.same(L0, 0.0), C.same(v['step'], 0.5), C.same(L1, 1.0), C.same(v['dmax'], 10.0)]
+                    nice = [C.same(v['dmin'], 1.0), C.same(L0, 0.0), C.same(v['dmax'], 10.0), C.same(L1, 1.0),
+                            z3.Or(C.same(v['step'], 1.0), C.same(v['step'], 0.5), C.same(v['step'], 0.25))]
                     cl.claim(c, conj(g), 'G1 fewest points whose spacing does not exceed logd_step (n=%d)' % n, inputs, replay_grid, prefer=nice)
                     g = [C.same(d[0], v['dmin']), C.same(d[n - 1], v['dmax'])]
                     g += [C.same(logd[i], L0 + delta * i / (n - 1)) for i in range(n)]
